@@ -117,7 +117,7 @@ def run_case(case):
         r = frames_eq.frames_equal(res[hard], exp[hard], check_categories=bool(len(exp)))
         if r is None and pc:
             r = frames_eq.frames_equal(res[[c for c in exp.columns if c in pc]], exp[[c for c in exp.columns if c in pc]],
-                                       check_dtype=False, check_categories=False)
+                                       check_dtype=False, check_categories=False, loose_numbers=True)
         if r:
             return viol("content|" + r[0], r[1], labels=labels)
         # soundness
